@@ -41,7 +41,8 @@ void fileClose(FILE *f, FileName fn)
 	if (bad) { g_reported = 1; __CPROVER_assume(0); }
 }
 void v_bug(void)        { g_diag = 1; __CPROVER_assume(0); }	/* visible abort, does not return */
-void _do_assert(char *str, char *file, int line) { g_diag = 1; __CPROVER_assume(0); }
+int nondet_v_assertions_on(void);
+void _do_assert(char *str, char *file, int line) { if (nondet_v_assertions_on()) { g_diag = 1; __CPROVER_assume(0); } }	/* assertions are off unless -Wcheck: the path may go on */
 
 /* ---- environment of libClose / libPutHeader / libPutSection (no stream I/O) ---- */
 static const char h_bufbytes[8];
